@@ -45,7 +45,8 @@ WIRES = {
             ("C16-HEAD-UNUSED-AFTER-SUCCESS", 'wave2_nio.no_reissue_while_head_wrong_rule(run, f, "C16-HEAD-UNUSED-AFTER-SUCCESS")')],
     "C17": [("C17-NO-RAW-ARRAY", 'wave2_nio.no_raw_array_rule(run, f, "C17-NO-RAW-ARRAY")'),
             ("C17-INDEX-ADVANCES", 'wave2_nio.index_advances_rule(run, f, "C17-INDEX-ADVANCES")'),
-            ("C17-HEAD-UNUSED-AFTER-SUCCESS", 'wave2_nio.no_reissue_while_head_wrong_rule(run, f, "C17-HEAD-UNUSED-AFTER-SUCCESS")')],
+            ("C17-HEAD-UNUSED-AFTER-SUCCESS", 'wave2_nio.no_reissue_while_head_wrong_rule(run, f, "C17-HEAD-UNUSED-AFTER-SUCCESS")'),
+            ("C17-OFFSET-PER-ELEMENT", 'wave2_nio.offset_per_element_rule(run, f, "C17-OFFSET-PER-ELEMENT")')],
     "C18": [("C18-MODE-WRITERS", 'wave3.mode_writers_rule(run, f, "C18-MODE-WRITERS")')],
     "C19": [("C19-WRITERS", 'wave3.limit_writers_rule(run, f, "C19-WRITERS")')],
     "C21": [("C21-INNER-REACHES-OS", 'wave3.inner_reaches_os_rule(run, f, "C21-INNER-REACHES-OS")')],
